@@ -69,6 +69,11 @@ JitterBound == x.J <= maxD * JS
 ReportCloses == [][ IsReport => /\ IntervalLost(x') = 0 /\ Expected(x') = 0
                                 /\ last'.cyc * M + last'.seq = x.hi /\ last'.tot = Min(sum', Cap) ]_vars
 TotalMonotone == [][ x'.total >= x.total ]_vars
+\* the as-found ring model agrees with the property while the interval fits the history ...
+AsFoundAgrees == (x.started /\ ~beyond /\ ~IntervalBeyondHistory(x)) => AsFoundLost(x) = IntervalLost(x)
+RingTypeOK == x.ring \subseteq 0 .. (Hist - 1) /\ (x.started => Slot(x.hi) \in x.ring \/ IntervalBeyondHistory(x) \/ beyond)
+\* ... and (negative control, expected to be violated) it does NOT beyond it: the recorded finding is reachable
+AsFoundAlways == (x.started /\ ~beyond) => AsFoundLost(x) = IntervalLost(x)
 \* negative control (expected to be violated): the unsaturated sum exceeds the cap, i.e. saturation is exercised
 ReachSaturated == sum <= Cap
 =============================================================================
